@@ -2138,6 +2138,14 @@ def router_histories(rng, tier):
                            ([(("n", 1), ("t", 3)), (("n", 0), ("n", 1)), (("t", 3), ("n", 0))], [(0, 30000), (1, 60000)])):
             u = rng.choice(h.users())
             h.do(("router_ops", u, funds, ops, None, rng.choice([None, USER0 + 1])))
+        # directed: three- and four-hop lists whose ONLY break is between the second and the third hop (two chains glued
+        # together, every branch funded): two dangling outputs, must be refused (C13-agent23: a "plain chain" fast path that
+        # examined the links pairwise in chunks and never looked at the link between hops two and three)
+        for ops in ([(("n", 0), ("t", 2)), (("t", 2), ("t", 3)), (("n", 1), ("t", 2))],
+                    [(("n", 0), ("t", 2)), (("t", 2), ("t", 3)), (("n", 1), ("t", 2)), (("t", 2), ("n", 0))],
+                    [(("n", 1), ("t", 3)), (("t", 3), ("n", 0)), (("n", 0), ("t", 2))][:2] + [(("n", 0), ("t", 2))]):
+            u = rng.choice(h.users())
+            h.do(("router_ops", u, [(0, 40000), (1, 30000)], ops, None, rng.choice([None, USER0 + 1])))
         # directed: routes that pass the router's shape check without being a chain - one dangling output, plus a native hop
         # that neither the attached funds nor an earlier hop feeds
         for ops in ([(("n", 0), ("t", 2)), (("n", 1), ("t", 2))], [(("n", 1), ("t", 2)), (("n", 0), ("t", 2))],
